@@ -241,6 +241,10 @@ func runReverse(c *Case) *Obs {
 			if p := lateProviders[str(arg(1))]; p != nil {
 				go p.Listen()
 			}
+		case "hold_appended": // every caller stops right after its call is queued for the provider (hook)
+			revHoldAppended()
+		case "release_appended":
+			revReleaseAppended()
 		case "sleep":
 			time.Sleep(time.Duration(num(arg(1))) * time.Millisecond)
 		case "fetch": // ["fetch", provider id]: scripted provider calls begin
